@@ -63,7 +63,16 @@ def run(ctx: Ctx, env):
         n_ident_flows = 0
         seen: Set[Tuple[str, str]] = set()
         for t in A.all_tmpls():
-            if t.path.outcome != "return" or not t.is_string:
+            if t.path.outcome != "return":
+                continue
+            if not t.is_string:
+                if t.kind == "Call" or (t.kind is not None and A.is_op_token_kind(t.kind)):
+                    continue
+                # the quoting analysis needs the emitted text itself; text handed to another function after the escaping
+                # (normalisation, re-encoding, formatting helpers outside the package) can turn harmless characters into quotes
+                ctx.fail("R4.text-is-final", f"{vs}.{t.owner}|{t.label}", f"[{vs}] {t.owner} returns {t.text()[:100]}: the SQL text is passed through "
+                         "something the analysis cannot see through after it was quoted/escaped", t.where,
+                         "name eq 'x\uff07 OR 1=1 --' (a compatibility character that normalises to a quote)")
                 continue
             txt = t.text()
             if (t.owner, txt) in seen:
